@@ -360,14 +360,103 @@ def concurrent_parsers(chk, b, rng, tier):
     chk.nontrivial(("concurrent", n))
 
 
+def _trunc_job(arg):
+    sz, shimdir, gitdir, rule, d, jid, revlist_full = arg
+    pdir = os.path.join(d, "t%d" % jid)
+    plan = R.make_plan(pdir, [rule], record=True, record_stdin=True)
+    r = R.sizer(sz, gitdir, ["--json", "--no-progress"], shimdir=shimdir, plan=plan, tmpdir=d, timeout=30)
+    out = {"rule": rule, "rc": r.rc, "viol": [], "timed_out": r.timed_out}
+    err = r.err
+    if b"panic:" in err or b"fatal error:" in err or (r.rc is not None and r.rc < 0):
+        # a crash is the parsers' (this property's) only if it happens inside package git - the listing readers and parsers;
+        # a panic of the aggregation over an inconsistent but well-formed listing is not judged here
+        i = err.find(b"goroutine ")
+        frames = re.findall(rb"\n([A-Za-z0-9_./*()\-]+)\(", err[i:i + 3000])[:6] if i >= 0 else []
+        inside = [f.decode() for f in frames if f.startswith(b"github.com/github/git-sizer/git.")]
+        if inside or b"fatal error:" in err or (r.rc is not None and r.rc < 0):
+            out["viol"].append(("crash-inside-the-listing-readers/" + rule["sig"].split(" ")[-1],
+                                {"rule": rule, "exit_status": r.rc, "frames": inside[:3], "stderr": err[:700].decode("utf-8", "replace")}))
+        else:
+            out["aggregation_panics"] = 1
+    # what the object-name consumers were sent: only names that the (possibly cut) listing delivered completely
+    def lines_of(fn):
+        p = os.path.join(pdir, fn)
+        if not os.path.exists(p):
+            return None
+        return open(p, "rb").read().split(b"\n")
+    sent = lines_of("stdin.cat-file_--batch-check.0")
+    if sent is not None and rule["sig"] == "rev-list":
+        delivered = revlist_full[:rule["after_bytes"]]
+        complete = {ln[:40] for ln in delivered.split(b"\n") if len(ln) >= 40}
+        for ln in sent:
+            if ln and ln not in complete:
+                out["viol"].append(("bytes-from-outside-the-listing-sent-to-cat-file",
+                                    {"rule": rule, "sent_line": ln[:80].decode("latin-1"), "listing_tail": delivered[-60:].decode("latin-1")}))
+                break
+    out["sent_lines"] = len(sent) if sent else 0
+    shutil.rmtree(pdir, ignore_errors=True)
+    return out
+
+
+def truncated_listings(chk, b, rng, tier):
+    """End to end: each listing child (for-each-ref, rev-list, cat-file --batch-check, cat-file --batch) stops after N
+    bytes - inside an object name, inside a line, at a line end - with a success or a failure status. The program may fail
+    or succeed, but it must not crash, and what it passes on to the next child must be names the listing delivered in full
+    (the shim keeps a copy of the children's stdin)."""
+    sz, shimdir = b.sizer(), b.shimdir()
+    d = os.path.join(b.scratchdir(), "trunc")
+    os.makedirs(d)
+    m = G.random_model(rng, size="medium", hostile_names=False, noise=False)
+    gitdir = G.write_model(m, os.path.join(d, "repo"))
+    pdir = os.path.join(d, "rec")
+    r0 = R.sizer(sz, gitdir, ["--json", "--no-progress"], shimdir=shimdir, plan=R.make_plan(pdir, [], record=True, record_stdin=True), tmpdir=d)
+    evs = {e["sig"]: e for e in R.read_events(pdir)}
+    roots_in = open(os.path.join(pdir, "stdin.rev-list.0"), "rb").read() if os.path.exists(os.path.join(pdir, "stdin.rev-list.0")) else b""
+    if r0.rc != 0 or "rev-list" not in evs or not roots_in:
+        chk.inconc("truncated-listings: record pass failed")
+        return
+    full = subprocess.run([G.REAL_GIT, "--no-replace-objects", "--git-dir", gitdir, "rev-list", "--objects", "--stdin", "--date-order"],
+                          input=roots_in, stdout=subprocess.PIPE, stderr=subprocess.DEVNULL, env=G.git_env({"GIT_GRAFT_FILE": "/dev/null"})).stdout
+    if len(full) != evs["rev-list"]["real_bytes"]:
+        chk.inconc("truncated-listings: cannot reproduce the rev-list listing (%d vs %d bytes)" % (len(full), evs["rev-list"]["real_bytes"]))
+        return
+    jobs = []
+    nrand = 25 if tier == "quick" else 400
+    for sig in ("rev-list", "cat-file --batch-check", "cat-file --batch", "for-each-ref"):
+        L = evs[sig]["real_bytes"] if sig in evs else 0
+        if L == 0:
+            continue
+        pts = set(range(0, min(L, 100))) | set(range(max(0, L - 60), L)) | {rng.randrange(L) for _ in range(nrand)}
+        if tier == "quick":
+            pts = set(rng.sample(sorted(pts), min(len(pts), 70)))
+        for n in sorted(pts):
+            jobs.append((sz, shimdir, gitdir, {"sig": sig, "ord": 0, "mode": "fault", "after_bytes": n,
+                                                "term": ["exit:0", "exit:128", "sig:KILL"][len(jobs) % 3]}, d, len(jobs), full))
+    res = R.pmap(_trunc_job, jobs, chunksize=4, chk=chk)
+    checked = 0
+    for r in res:
+        chk.count()
+        checked += r["sent_lines"]
+        chk.bump("panics_outside_package_git_under_truncated_listings_not_judged", r.get("aggregation_panics", 0))
+        for clause, det in r["viol"]:
+            chk.violation("C16/end-to-end/" + clause, det)
+        chk.nontrivial(("trunc", r["rule"]["sig"], r["rule"]["after_bytes"]))
+    chk.cov["truncated_listing_runs"] = len(res)
+    chk.cov["names_passed_on_to_cat_file_checked"] = checked
+    shutil.rmtree(d, ignore_errors=True)
+
+
 def run(chk, b, tier):
     rng = random.Random("C16|%d" % R.SEED)
     drv = b.apidrv()
     bodies = differential(chk, drv, rng, tier)
     listing_truncations(chk, drv, b, rng, tier)
     concurrent_parsers(chk, b, random.Random("C16c|%d" % R.SEED), tier)
+    truncated_listings(chk, b, random.Random("C16t|%d" % R.SEED), tier)
     end_to_end(chk, b, rng, tier)
     fuzz(chk, b, bodies, tier)
+    from ._camp import generic_fault_sweep
+    generic_fault_sweep(chk, b, "C16", [['--json', '--no-progress']])
     chk.cov["rule"] = ("(1) differential: every tree/commit/tag body of generated models (hostile names, gpgsig / mergetag "
                        "continuation lines containing tree/parent/object lines, messages imitating headers, missing message) "
                        "through git.ParseTree+TreeIter / ParseCommit / ParseTag vs the model, byte-exact re-serialisation of "
